@@ -24,9 +24,9 @@ def hist_to_coq(I, c):
     def step(st):
         qs = clist(st.get("qs") or [], lambda q: cpair(cfilters(I, q["fs"]), evs(q.get("out") or [])),
                    "(list rfilter * list event)%type")
-        return "(mkStep %s %s %s %s %s %s %s %s)" % (
+        return "(mkStep %s %s %s %s %s %s %s %s %s)" % (
             names[st["e"]], cbool(st.get("added", False)), cZ(st.get("len", 0)), evs(st.get("list") or []),
-            cZ(st.get("dlen", 0)), cZ(st.get("tlen", 0)), qs, cbool(bool(st.get("panic"))))
+            cZ(st.get("dlen", 0)), cZ(st.get("tlen", 0)), cZ(st.get("ilen", 0)), qs, cbool(bool(st.get("panic"))))
 
     return "(CHist %s %s)" % (cZ(c["cap"]), clist(c["steps"], step, "step"))
 
@@ -34,7 +34,7 @@ def hist_to_coq(I, c):
 def strip_outputs(c):
     c = copy.deepcopy(c)
     for st in c["steps"]:
-        for k in ("added", "len", "list", "dlen", "tlen", "panic"):
+        for k in ("added", "len", "list", "dlen", "tlen", "ilen", "panic"):
             st.pop(k, None)
         for q in st.get("qs") or []:
             q.pop("out", None)
